@@ -319,6 +319,16 @@ class C04Mon(Monitor):
             elif id(o) not in live:
                 V(rem == 0, "C04.lost", "order left the book without terminal event although volume remains",
                   "%s accepted=%s fills=%s" % (fmt(o), e.acc, e.fills))
+        # the book as the market shows it to agents (volume per price) holds exactly the orders the ledger says are resting
+        want = {True: {}, False: {}}
+        for e in w.entries:
+            o = e.o
+            if e.cancel_time is None and e.acc - e.fills > 0 and (o.ttl is None or now <= o.placed_at + o.ttl):
+                want[o.is_buy][e.acc_price] = want[o.is_buy].get(e.acc_price, 0) + e.acc - e.fills
+        for side, view in ((True, m.get_buy_order_book()), (False, m.get_sell_order_book())):
+            V(dict(view) == want[side], "C04.book_view",
+              "the per-price view of a side shows orders that have left the book (or misses resting ones)",
+              "%s side shows %s, resting by the ledger %s" % ("buy" if side else "sell", dict(view), want[side]))
 
     def on_bad(self, w, sub, exc):
         V(exc is not None, "C04.bad_accepted", "invalid operation %r was accepted" % (sub.op,))
